@@ -826,7 +826,9 @@ def _parse_string(value: bytes) -> bytes:
 def _escape_value(value: bytes) -> bytes:
     """Escape a value."""
     value = value.replace(b"\\", b"\\\\")
-    value = value.replace(b"\r", b"\\r")
+    # A carriage return is written as is: neither git nor _parse_string knows
+    # a "\r" escape (it would read back as a backslash followed by "r").
+    # _format_string quotes the value when it is at either end.
     value = value.replace(b"\n", b"\\n")
     value = value.replace(b"\t", b"\\t")
     value = value.replace(b'"', b'\\"')
